@@ -879,6 +879,7 @@ def fit_case(ctx, kind, prog=None, spec=None, settings=None):
             # (no early convergence: every call uses up its iterations, so the history is stitched over several calls)
             extra.update({"ftol": 0.0, "gtol": 0.0} if kind == "LBFGS" else {"gtol": 0.0})
         search = getattr(af, kind)(visualize=bool(settings.get("history")), number_of_cores=cores, **named, **extra)
+        remake = lambda: getattr(af, kind)(visualize=bool(settings.get("history")), number_of_cores=cores, **named, **dict(extra))  # noqa: E731
     elif kind in ("PySwarmsGlobal", "PySwarmsLocal"):
         search = getattr(af, kind)(n_particles=settings.setdefault("particles", 4), iters=settings.setdefault("iters", 5),
                                    number_of_cores=cores, **named)
@@ -889,6 +890,8 @@ def fit_case(ctx, kind, prog=None, spec=None, settings=None):
     ctx.notes.setdefault("fits_tried", {})
     ctx.notes["fits_tried"][kind] = ctx.notes["fits_tried"].get(kind, 0) + 1
     cwd = os.getcwd()
+    if "remake" not in dir():
+        remake = None
     try:
         from common import scratch_dir
 
@@ -897,6 +900,17 @@ def fit_case(ctx, kind, prog=None, spec=None, settings=None):
             result, search = c05_more.crash_then_resume(ctx, kind, search, model, analysis, settings)
         else:
             result = search.fit(model=model, analysis=analysis)
+        if remake is not None and named and not settings.get("crash_after") and not settings.get("reuse"):
+            # the finished fit asked for again (a new search object, the same output folder): the result it loads is
+            # faithful in the same way - its best fit is the maximum over the samples it carries
+            ctx.hit("fit:completed-rerun")
+            r2 = remake().fit(model=model, analysis=analysis)
+            lls2 = [float(s_.log_likelihood) for s_ in r2.samples.sample_list]
+            if not lls2 or abs(max(lls2) - float(r2.log_likelihood)) > 1e-9 * (1 + abs(max(lls2))) \
+                    or abs(float(r2.log_likelihood) - float(result.log_likelihood)) > 1e-9 * (1 + abs(float(result.log_likelihood))):
+                ctx.fail("C05-rerun-result-not-its-samples", f"{kind}: the result of a completed fit that is run again does not report the "
+                         "maximum over the samples it carries (or another best fit than the first run)", case,
+                         {"first_run": float(result.log_likelihood), "rerun": float(r2.log_likelihood), "max_over_rerun_samples": max(lls2) if lls2 else None})
         if settings.get("reuse"):
             # the same search object fits again, with another likelihood: what it returns is about this fit
             ctx.hit("fit:search-object-used-before")
@@ -992,6 +1006,7 @@ NAMED_FITS = [
     ("Emcee", {"named": True}),
     ("LBFGS", {"named": True}),
     ("BFGS", {"named": True, "history": True}),
+    ("LBFGS", {"named": True, "ipu": 2, "maxiter": 8}),  # several intermediate updates into the output folder, then run again
     ("PySwarmsGlobal", {"named": True}),
     ("DynestyDynamic", {"x1": True}),
     ("DynestyStatic", {"cores": 2}),
